@@ -11,7 +11,6 @@ EXTENDS FVLimiters, Json, TLC, IOUtils, SequencesExt, FiniteSetsExt
 Trace == JsonDeserialize(IOEnv.TRACE_FILE).episodes
 VARIABLE i
 
-IsNaR(q) == q[2] = 0
 FirstFew(S) == LET s == SetToSortSeq(S, <) IN SubSeq(s, 1, IF Len(s) < 3 THEN Len(s) ELSE 3)
 
 Verdict(k) ==
